@@ -264,7 +264,12 @@ func (p *Program) indexFile(pk *packages.Package, f *ast.File) {
 		}
 		fi := &FuncInfo{Name: QualName(obj), Decl: fd, Obj: obj, Pkg: pk, File: f, prog: p}
 		if fd.Name.Name == "init" || fd.Name.Name == "_" {
-			fi.Name = fmt.Sprintf("%s@%d", fi.Name, p.Fset.Position(fd.Pos()).Line)
+			// keyed by file and ordinal, never by line (edits elsewhere in the file must not rename it)
+			base := fmt.Sprintf("%s[%s]", fi.Name, filepath.Base(p.Fset.Position(fd.Pos()).Filename))
+			fi.Name = base
+			for n := 2; p.funcs[fi.Name] != nil; n++ {
+				fi.Name = fmt.Sprintf("%s#%d", base, n)
+			}
 		}
 		p.funcs[fi.Name] = fi
 		p.byObj[obj] = fi
